@@ -1,6 +1,7 @@
 import Cellml.Props.C12
 import Cellml.Tie.Sing
 import Cellml.Tie.SingFixAdd
+import Cellml.Tie.SingDet3
 set_option linter.unusedSectionVars false
 set_option linter.unusedSimpArgs false
 
@@ -15,7 +16,9 @@ set_option linter.unusedSimpArgs false
       `swap_irrelevant_gen`, `window_brackets_gen`
     * `_remove_singularities`: `Gen.SingFix.removeSingularities` — `remove_outside_equal_gen`, `forms_repaired_gen`
     * `remove_fixable_singularities`: `Gen.SingTrav.removeFixableSingularities` — `never_raises_gen`,
-      `defined_vars_unchanged_gen`, `excluded_unchanged_gen`, `survives_gen`, `traverse_sound_gen` -/
+      `defined_vars_unchanged_gen`, `excluded_unchanged_gen`, `survives_gen`, `traverse_sound_gen`
+    * `_get_singularity`: `Gen.SingDet3.getSingularity` (+ `Gen.SingDet.*`) — `genDet_eq`, `forms_detected_gen`,
+      `forms_detected_zero_offset_gen`, `window_brackets_det_gen`, `forms_repaired_gendet` (last section) -/
 
 namespace Cellml.Props.C12Gen
 open _root_.C12 _root_.C12.Expr Cellml.Gen Cellml.Tie Cellml.Tie.Sing Cellml.Props.C12
@@ -211,5 +214,113 @@ example : (genRun (detect exδ false) 0 .ownUnit (exEqs.map some) ["z"] exEqs).t
         (fun r => (lhss r.1, r.2.2)) = some (["y", "z", "x"], [.ofStore 0, .ofStore 0]) ∧
     Call .ownUnit (exEqs.map some) := by
   refine ⟨by decide +kernel, Or.inl rfl, by decide +kernel⟩
+
+/-! ## `_get_singularity` (generated): the detector is no longer an arbitrary `det`
+
+    `Gen.SingDet3.getSingularity` is the text of `_get_singularity` (with `Gen.SingDet.onTopLoop`, `checkUMatch`,
+    `solveReal`, `Gen.SingDet3.fp2Loop`, `spLoop`, `recordLoop`, `isNegativePowerF`), run on the canonical product
+    `canon rev args` (the model's classification of SymPy's factors) with the model's reading of SymPy's matcher and of
+    `solveset` on the affine fragment, and ANY `log` leaf with `log 1 = 0` (`Tie/SingDet3.lean`, `getSingularity_tie`). -/
+
+section
+open Cellml.Tie.PSing2 Cellml.Tie.PSing3
+
+/-- a returned triple `(Vmin, Vmax, sp)` as a range -/
+def tripleWin (t : Rat × Rat × Rat) : Win Rat := ⟨t.1, t.2.1, t.2.2⟩
+
+/-- the detector GENERATED from the source of `_get_singularity`, as a function of the arguments of the product -/
+def genDet (lg : Rat → Rat) (δ : Rat) (rev : Bool) (args : List Expr) : List (Win Rat) :=
+  match SingDet3.getSingularity matchNegM matchPosM lg solveAff (canon rev args) δ with
+  | .ok l => l.map tripleWin
+  | .error _ => []
+
+/-- on the affine fragment (no factor outside it) the generated detector never raises and IS `C12.detect` -/
+theorem genDet_eq (lg : Rat → Rat) (hlg : lg 1 = 0) (δ : Rat) (rev : Bool) (args : List Expr)
+    (h : (detect? δ rev args).isSome) : genDet lg δ rev args = detect δ rev args := by
+  unfold genDet
+  rw [getSingularity_detect lg hlg δ rev args h]
+  simp [List.map_map, Function.comp_def, tripleWin, winTriple]
+
+theorem form_in_fragment (δ P k c : Rat) (hk : k ≠ 0) (hc : c ≠ 0) (n : Nat) (rev : Bool) :
+    (detect? δ rev (form n P k c)).isSome := by
+  have h := forms_detected δ P k c hk hc n rev
+  unfold detect at h
+  cases hd : detect? δ rev (form n P k c) with
+  | some ws => rfl
+  | none => rw [hd] at h; cases h
+
+theorem form0_in_fragment (δ P k : Rat) (hk : k ≠ 0) (hk1 : k ≠ 1) (n : Nat) (rev : Bool) :
+    (detect? δ rev (form n P k 0)).isSome := by
+  have h := forms_detected_zero_offset δ P k hk hk1 n rev
+  unfold detect at h
+  cases hd : detect? δ rev (form n P k 0) with
+  | some ws => rfl
+  | none => rw [hd] at h; cases h
+
+/-- **`forms_detected` for the generated `_get_singularity`**: on each of the four documented forms (outer factor `P`,
+    `U = k·V + c`) it returns (never raises) exactly one triple, the range `|U| ≤ δ` with its singular point -/
+theorem forms_detected_gen (lg : Rat → Rat) (hlg : lg 1 = 0) (δ P k c : Rat) (hk : k ≠ 0) (hc : c ≠ 0) (n : Nat)
+    (rev : Bool) :
+    SingDet3.getSingularity matchNegM matchPosM lg solveAff (canon rev (form n P k c)) δ
+      = .ok [(vminOf k c δ, vmaxOf k c δ, spOf k c)] := by
+  rw [getSingularity_detect lg hlg δ rev _ (form_in_fragment δ P k c hk hc n rev), forms_detected δ P k c hk hc n rev]
+  rfl
+
+/-- the same for an offset of zero (`U = k·V`, held by SymPy as a product) -/
+theorem forms_detected_zero_offset_gen (lg : Rat → Rat) (hlg : lg 1 = 0) (δ P k : Rat) (hk : k ≠ 0) (hk1 : k ≠ 1)
+    (n : Nat) (rev : Bool) :
+    SingDet3.getSingularity matchNegM matchPosM lg solveAff (canon rev (form n P k 0)) δ
+      = .ok [(vminOf k 0 δ, vmaxOf k 0 δ, spOf k 0)] := by
+  rw [getSingularity_detect lg hlg δ rev _ (form0_in_fragment δ P k hk hk1 n rev),
+    forms_detected_zero_offset δ P k hk hk1 n rev]
+  rfl
+
+/-- **`window_brackets` for what the generated `_get_singularity` returns** on a documented form: the singular point
+    lies strictly between the two bounds, and a voltage is inside the range exactly when `|U(V)| ≤ δ` -/
+theorem window_brackets_det_gen (lg : Rat → Rat) (hlg : lg 1 = 0) (δ P k c : Rat) (hk : k ≠ 0) (hc : c ≠ 0)
+    (hδ : 0 < δ) (n : Nat) (rev : Bool) :
+    ∃ vmin vmax sp, SingDet3.getSingularity matchNegM matchPosM lg solveAff (canon rev (form n P k c)) δ
+        = .ok [(vmin, vmax, sp)] ∧
+      (min vmin vmax < sp ∧ sp < max vmin vmax) ∧
+      ∀ V : Rat, (lo vmin vmax ≤ V ∧ V ≤ hi vmin vmax) ↔ |k * V + c| ≤ δ :=
+  ⟨_, _, _, forms_detected_gen lg hlg δ P k c hk hc n rev, window_brackets k c δ hk hδ⟩
+
+/-- `forms_repaired` needs of the detector only what it answers on the product itself -/
+theorem forms_repaired_of (det : List Expr → List (Win Rat)) (δ P k c : Rat) (hP : P ≠ 1) (n : Nat)
+    (hdet : det (form n P k c) = [window k c δ]) :
+    removeSing det (mul (form n P k c)) = some (wrapWin (window k c δ) (mul (form n P k c))) := by
+  unfold removeSing
+  rw [form_hasExp]
+  simp only [Bool.not_true, Bool.false_eq_true, if_false]
+  unfold fixParts
+  rw [form_hasExp, form_dropOnes n P k c hP]
+  simp only [Bool.not_true, Bool.false_eq_true, if_false, fixBody, hdet]
+  simp [Res.touched, wrap]
+
+/-- **`forms_repaired` with BOTH `_remove_singularities` and `_get_singularity` generated from the source**: every
+    product `P·(one of the four documented forms)` with an affine exponent argument is reported changed and wrapped
+    with exactly the range `|U| ≤ δ` -/
+theorem forms_repaired_gendet (lg : Rat → Rat) (hlg : lg 1 = 0) (δ P k c : Rat) (hk : k ≠ 0) (hc : c ≠ 0) (hP : P ≠ 1)
+    (n : Nat) (rev : Bool) :
+    genRemove (genDet lg δ rev) (mul (form n P k c)) = .ok (true, wrapWin (window k c δ) (mul (form n P k c))) := by
+  have hdet : genDet lg δ rev (form n P k c) = [window k c δ] := by
+    rw [genDet_eq lg hlg δ rev _ (form_in_fragment δ P k c hk hc n rev), forms_detected δ P k c hk hc n rev]
+  have h := forms_repaired_of (genDet lg δ rev) δ P k c hP n hdet
+  rw [← fixOf_pyRemoveSing] at h
+  rw [genRemove_ok]
+  unfold fixOf at h
+  split at h
+  · rename_i h1
+    have h2 := Option.some.inj h
+    exact congrArg Except.ok (Prod.ext h1 h2)
+  · cases h
+
+/-- non-vacuity: the generated detector run on `3·U/(exp U − 1)`, `U = V/2 − 5/2`, `δ = 1e-7` -/
+example : SingDet3.getSingularity matchNegM matchPosM (fun _ => 0) solveAff (canon false (form 0 3 (1/2) (-5/2))) exδ
+    = .ok [(5 + 2 / 10000000, 5 - 2 / 10000000, 5)] := by
+  rw [forms_detected_gen (fun _ => 0) rfl exδ 3 (1/2) (-5/2) (by decide +kernel) (by decide +kernel) 0 false]
+  decide +kernel
+
+end
 
 end Cellml.Props.C12Gen
